@@ -776,6 +776,29 @@ Proof.
       destruct (select_tsr_in pats (h0 :: host') path true) as [[p vals]|]; [reflexivity|]. exact Hpo.
 Qed.
 
+(* THE one place where the side condition [nohslash host] enters the roots_lookup-level theorem: what
+   the hostname pass does on a host without '/'.  (Once roots_lookup guards the hostname pass with
+   "the host contains no '/'", the theorem below splits on that test and uses this lemma in the
+   guarded branch only.) *)
+Lemma host_pass_nohslash root host path fuel :
+  hroot_ok root -> nroute root = None -> host <> [] -> nohslash host -> pathok path = true ->
+  root_side path root -> hroot_fuel path root <= fuel ->
+  direct_obs (lookup_by_domain fuel root host path false [] []) =
+    spec_direct_host (map rpat (routes_of_node root)) host path /\
+  exists tn' t p tp, lookup_by_domain fuel root host path false [] [] = Found tn' t p tp /\
+    (select_in (map rpat (routes_of_node root)) host path true = None -> t = false -> tn' = None).
+Proof.
+  intros Hroot Hr Hne Hns Hpo Hside Hf.
+  pose proof (lbd_eq_spec root host path fuel Hroot Hr Hne Hns Hpo Hside Hf) as Hd.
+  split; [exact Hd|].
+  pose proof (lbd_eq_m2h host path root false fuel Hns Hroot Hne Hf) as Hshape.
+  destruct (m2h_root path root host) as [[l vs]|] eqn:Em.
+  - destruct Hshape as (l' & tps' & E & Hrt). do 4 eexists. split; [exact E|]. intros Hsel _. exfalso.
+    destruct (m2h_root_sound host path root l vs Hns Hroot Em) as (rt & ht & bt & hvals & x & kvp & G1 & _).
+    unfold spec_direct_host in Hd. rewrite Hsel, E in Hd. simpl in Hd. rewrite Hrt, G1 in Hd. discriminate.
+  - destruct Hshape as (tn' & t & pp & tp & E & Hi). exists tn', t, pp, tp. split; [exact E|]. intros _. exact Hi.
+Qed.
+
 Theorem roots_lookup_host_eq_spec r m i root host path fuel :
   method_index r m = Some i -> nth_error r i = Some root -> nroute root = None ->
   hroot_ok root -> nchildren root <> [] -> shortcut root = false ->
@@ -795,23 +818,18 @@ Proof.
   - set (host := h0 :: host') in *.
     assert (Hhne : host <> []) by discriminate.
     rewrite (roots_lookup_hostpass fuel r m i root host path false [] [] Hm Hn Hne Hsc Hhne).
-    pose proof (lbd_eq_spec root host path fuel Hroot Hr Hhne Hns Hpo Hside Hhf) as Hd.
-    unfold spec_direct_host in Hd.
-    pose proof (lbd_eq_m2h host path root false fuel Hns Hroot Hhne Hhf) as Hshape.
+    destruct (host_pass_nohslash root host path fuel Hroot Hr Hhne Hns Hpo Hside Hhf)
+      as (Hd & tn' & t & pp & tp & E & Hnone).
+    unfold spec_direct_host in Hd. rewrite E in Hd |- *.
     destruct (select_in (map rpat (routes_of_node root)) host path true) as [[p vals]|] eqn:Esel.
     + (* the hostname pass matches directly *)
-      destruct (lookup_by_domain fuel root host path false [] []) as [[n|] t pp tp| |]; simpl in Hd; try discriminate.
+      destruct tn' as [n|]; simpl in Hd; try discriminate.
       destruct t; [discriminate|]. exact Hd.
-    + specialize (Htsr Hhne eq_refl).
-      destruct (m2h_root path root host) as [[l vs]|] eqn:Em.
-      * exfalso. destruct Hshape as (l' & tps' & E & Hrt).
-        destruct (m2h_root_sound host path root l vs Hns Hroot Em) as (rt & ht & bt & hvals & x & kvp & G1 & _).
-        rewrite E in Hd. simpl in Hd. rewrite Hrt, G1 in Hd. discriminate.
-      * destruct Hshape as (tn' & t & pp & tp & E & Hi). rewrite E.
-        destruct (Htsr tn' t pp tp E) as [Ha Hb].
-        destruct tn' as [n|].
-        -- destruct t; [|specialize (Hi eq_refl); discriminate].
-           destruct (select_tsr_in (map rpat (routes_of_node root)) host path true) as [x|]; [reflexivity|].
-           specialize (Hb eq_refl). discriminate.
-        -- rewrite (Ha eq_refl). apply fallback_eq_spec; auto.
+    + specialize (Htsr Hhne eq_refl). specialize (Hnone eq_refl).
+      destruct (Htsr tn' t pp tp E) as [Ha Hb].
+      destruct tn' as [n|].
+      * destruct t; [|specialize (Hnone eq_refl); discriminate].
+        destruct (select_tsr_in (map rpat (routes_of_node root)) host path true) as [x|]; [reflexivity|].
+        specialize (Hb eq_refl). discriminate.
+      * rewrite (Ha eq_refl). apply fallback_eq_spec; auto.
 Qed.
